@@ -139,7 +139,7 @@ class TlcResult:
         self.actions = {}
         for m in re.finditer(
                 r"^<(\w+) line \d+, col \d+ to line \d+, col \d+ of module "
-                r"(\w+)>: (\d+):(\d+)", out, re.M):
+                r"(\w+)(?: \([\d ]+\))?>: (\d+):(\d+)", out, re.M):
             name = m.group(1)
             prev = self.actions.get(name, (0, 0))
             self.actions[name] = (prev[0] + int(m.group(3)),
@@ -201,6 +201,19 @@ def run_tlc(module, cfg, workdir, workers=8, timeout=900, simulate=None,
             sys.stdout.write(p.stdout[-6000:])
             raise ToolError(f"TLC failed on {module}/{cfg}: {line}")
     return res
+
+
+def action_coverage(out):
+    """Per-action coverage of a TLC run with -coverage, including actions
+    whose body is a LET (TLC appends the body's position in parentheses)."""
+    acts = {}
+    for m in re.finditer(
+            r"^<(\w+) line \d+, col \d+ to line \d+, col \d+ of module "
+            r"(\w+)(?: \([\d ]+\))?>: (\d+):(\d+)", out, re.M):
+        prev = acts.get(m.group(1), (0, 0))
+        acts[m.group(1)] = (prev[0] + int(m.group(3)),
+                            prev[1] + int(m.group(4)))
+    return acts
 
 
 REPLAY_RE = re.compile(r'^<<"REPLAY", (".*")>>\s*$')
@@ -424,6 +437,33 @@ def validate_all(module, cfg, trace, workdir, max_rejections=25,
     return validated, rejections, states
 
 
+def validate_parallel(module, cfg, trace, workdir, jobs=8, min_per_job=8,
+                      timeout=2400):
+    """validate_all over several TLC processes: the behaviours of the trace
+    are dealt out to `jobs` chunks, each validated on its own."""
+    import concurrent.futures
+    segs = split_behaviours(trace)
+    if not segs:
+        return 0, [], 0
+    jobs = max(1, min(jobs, len(segs) // min_per_job or 1))
+    chunks = [segs[i::jobs] for i in range(jobs)]
+
+    def work(i):
+        flat = [ev for s in chunks[i] for ev in s]
+        return validate_all(module, cfg, flat,
+                            os.path.join(workdir, f"val_{i}"),
+                            timeout=timeout)
+    validated = 0
+    rejections = []
+    states = 0
+    with concurrent.futures.ThreadPoolExecutor(max_workers=jobs) as pool:
+        for v, r, s in pool.map(work, range(jobs)):
+            validated += v
+            rejections.extend(r)
+            states += s
+    return validated, rejections, states
+
+
 # --------------------------------------------------------------------------
 # known findings, replay files, evidence
 # --------------------------------------------------------------------------
@@ -457,7 +497,8 @@ class Check:
         self.violations = []      # unlisted
         self.known = []           # matched known findings
         self.findings = [f for f in load_known_findings()
-                         if f.get("property") == pid]
+                         if f.get("property") == pid
+                         or pid in f.get("also_seen_by", [])]
         self.rng = random.Random(seed)
         self._distinct = set()
 
